@@ -111,3 +111,33 @@ func VH_C08_PendingTransferKeepsItsReference_sym() {
 	vAssert("pending_transfer_still_found_under_its_reference", gb == b && string(gb.FileName) == "b.txt")
 	vAssert("new_transfer_found_under_its_reference", gc == c && string(gc.FileName) == "c.txt")
 }
+
+// The longest legal file names (250..255 bytes): the side files ".rsrc_<name>" / ".info_<name>" of such a file cannot
+// even be named on disk (name too long), which is just another way of not existing - the download is still granted
+// sizes that the transfer connection then carries in full.
+func VH_C08_LongestFileNamesStillStream_sym() {
+	vUnroll(400)
+	n := vInt("name_length")
+	vAssume(n >= 249 && n <= 255)
+	n = vConcrete(n)
+	nm := make([]byte, n)
+	for i := range nm {
+		nm[i] = 'a' + byte(i%26)
+	}
+	path := "/r/docs/" + string(nm)
+	data := vBytesN("data", 3)
+	st := &vStore{names: []string{path}, data: [][]byte{data}}
+	fw, err := NewFileWrapper(st, path, 0)
+	vAssert("wrapper_ok", err == nil)
+	if err != nil {
+		return
+	}
+	ts := fw.Ffo.TransferSize(0)
+	announced := int(ts[0])<<24 | int(ts[1])<<16 | int(ts[2])<<8 | int(ts[3])
+	w := &vBufW{}
+	ft := &FileTransfer{bytesSentCounter: &WriteCounter{}}
+	err = DownloadHandler(w, path, ft, st, vLogger(), true)
+	vAssert("download_ok", err == nil)
+	vAssert("announced_transfer_size_is_what_is_sent", len(w.b)-16 == announced)
+	vAssert("data_fork_is_sent", len(w.b) >= 3)
+}
